@@ -500,29 +500,12 @@ theorem privateKey_of_proves {now : Int} {p : Provider} {t : Token} {c : OPClien
 
 theorem widening_scopes {now : Int} {requested : List String} {r0 : RefreshReq} (h : C07.subset requested r0.scopes = false) :
     ValidateRefreshTokenScopes now requested r0 = .error "ErrInvalidScope" := by
-  unfold ValidateRefreshTokenScopes
-  have hne : requested ≠ [] := by intro he; subst he; simp [C07.subset] at h
-  have hlen : (Go.len requested == (0 : Int)) = false := by
-    cases requested with
-    | nil => exact absurd rfl hne
-    | cons x xs => simp [Go.len, HasLen.len]; omega
-  simp only [hlen, Bool.false_eq_true, if_false]
-  have hany : Go.any requested (fun scope => !Go.contains r0.GetScopes scope) = true := by
-    simp only [C07.subset] at h
-    simp only [Go.any, Go.contains, RefreshReq.GetScopes]
-    rw [← Bool.not_eq_true, List.all_eq_true] at h
-    simp only [List.any_eq_true, Bool.not_eq_true']
-    apply Classical.byContradiction
-    intro hno
-    apply h
-    intro x hx
-    apply Classical.byContradiction
-    intro hc
-    exact hno ⟨x, hx, by simpa using hc⟩
-  simp only [hany, if_true]
+  rw [C07.validateRefreshTokenScopes_eq]
+  exact C07.scopesSpec_widening h
 
 /-- model-side completeness: a live token of client `c`, presented by a caller the monitor takes for `c`, with the
-    refresh grant enabled and registered and a scope parameter that is NOT within the grant, is answered `invalid_scope` -/
+    refresh grant enabled and registered and a scope parameter that is NOT within the grant, is answered `invalid_scope`
+    (derived from the characterisation lemmas `C07.*_eq`; no regenerated definition is unfolded here) -/
 theorem widening_refused {now : Int} {rt : Router} {p : Provider} {req : RefreshTokenRequest} {ha : Bool} {m : C04.MonState}
     {r0 : RefreshReq} {c : OPClient}
     (hm : SameCfg m p) (hsup : p.refreshSupported = true) (hlook : p.store.refresh.find? (·.token == req.RefreshToken) = some r0)
@@ -537,59 +520,56 @@ theorem widening_refused {now : Int} {rt : Router} {p : Provider} {req : Refresh
   have hfind : p.store.clients.find? (·.id == c.id) = some c := by rw [hcid]; exact hc
   have hlook' : p.store.TokenRequestByRefreshToken req.RefreshToken = .ok r0 := by
     simp [Store.TokenRequestByRefreshToken, hlook]
-  have hbytok : RefreshTokenRequestByRefreshToken now p.store req.RefreshToken = .ok r0 := by
-    simp [RefreshTokenRequestByRefreshToken, hlook']
+  have hbytok : C07.byTokenSpec p.store req.RefreshToken = .ok r0 := by
+    simp [C07.byTokenSpec, hlook']
   have hgt : ValidateGrantType now c Const.GrantTypeRefreshToken = true :=
     C04.validateGrantType_iff.2 (by simpa [Const.GrantTypeRefreshToken] using hgrant)
-  have hscope := widening_scopes (now := now) hwide
+  have hscope := C07.scopesSpec_widening hwide
   have htok' : (req.RefreshToken == "") = false := by simpa using htok
-  have hidb : (c.id != r0.clientID) = false := by simp [hcid]
+  have hidn : ¬ c.id ≠ r0.clientID := by simp [hcid]
   cases rt with
   | provider =>
-    have hauth : AuthorizeRefreshClient now req p = .ok (r0, c) := by
-      unfold AuthorizeRefreshClient AuthorizeClientIDSecret
-      simp only [Provider.Storage, Provider.AuthMethodPrivateKeyJWTSupported, Provider.AuthMethodPostSupported, OPClient.AuthMethod]
+    have hauth : C07.authorizeRefreshSpec now req p = .ok (r0, c) := by
+      unfold C07.authorizeRefreshSpec
       rcases cred_cases hm hcap hcaller with ⟨hty, hcl, hn⟩ | ⟨hty, hpk, h1, h2, hpr⟩ | ⟨hty, hcl, hsec, hk⟩
-      · have hty' : (req.ClientAssertionType == Const.ClientAssertionTypeJWTAssertion) = false := by simpa using hty
-        simp [hty', hcl, getClient_of_find hfind, hgt, hn, hbytok, Const.AuthMethodNone, Const.AuthMethodPrivateKeyJWT]
-      · have hty' : (req.ClientAssertionType == Const.ClientAssertionTypeJWTAssertion) = true := by simpa using hty
-        simp [hty', h1, h2, privateKey_of_proves hfind hpk (hdec hty) hpr, hgt, hbytok]
-      · have hty' : (req.ClientAssertionType == Const.ClientAssertionTypeJWTAssertion) = false := by simpa using hty
-        have hsecret := secret_of_find hfind (by rcases hk with hb | ⟨hp, _⟩; exact Or.inl hb; exact Or.inr hp)
+      · simp [hty, hcl, getClient_of_find hfind, hgt, hn, hbytok, Const.AuthMethodNone, Const.AuthMethodPrivateKeyJWT]
+      · simp [hty, h1, h2, privateKey_of_proves hfind hpk (hdec hty) hpr, hgt, hbytok]
+      · have hsecret := secret_of_find hfind (by rcases hk with hb | ⟨hp, _⟩; exact Or.inl hb; exact Or.inr hp)
         rcases hk with hb | ⟨hp, hps⟩
-        · simp [hty', hcl, hsec, getClient_of_find hfind, hgt, hb, hbytok, hsecret, Go.ok, Const.AuthMethodNone, Const.AuthMethodPrivateKeyJWT,
+        · simp [hty, hcl, hsec, getClient_of_find hfind, hgt, hb, hbytok, hsecret, Const.AuthMethodNone, Const.AuthMethodPrivateKeyJWT,
             Const.AuthMethodBasic, Const.AuthMethodPost]
-        · simp [hty', hcl, hsec, getClient_of_find hfind, hgt, hp, hps, hbytok, hsecret, Go.ok, Const.AuthMethodNone, Const.AuthMethodPrivateKeyJWT,
+        · simp [hty, hcl, hsec, getClient_of_find hfind, hgt, hp, hps, hbytok, hsecret, Const.AuthMethodNone, Const.AuthMethodPrivateKeyJWT,
             Const.AuthMethodPost]
-    simp only [refreshExchange, hsup, Bool.not_true, Bool.false_eq_true, if_false]
-    unfold ValidateRefreshTokenRequest
-    simp only [htok', Bool.false_eq_true, if_false, hauth, OPClient.GetID, RefreshReq.GetClientID, hidb, hscope]
+    simp only [refreshExchange, hsup, Bool.not_true, Bool.false_eq_true, if_false, C07.validateRefreshTokenRequest_eq]
+    unfold C07.validateRefreshSpec
+    simp only [htok, if_false, hauth, if_neg hidn, hscope]
   | legacy =>
     have hwc : withClient now p Const.GrantTypeRefreshToken
         { ClientID := req.ClientID, ClientSecret := req.ClientSecret, ClientAssertion := req.ClientAssertion, ClientAssertionType := req.ClientAssertionType } ha = .ok c := by
-      unfold withClient parseCC LegacyVerifyClient AuthorizeClientIDSecret
-      simp only [formGet_grant, Provider.Storage, Provider.AuthMethodPrivateKeyJWTSupported, Provider.AuthMethodPostSupported,
-        OPClient.AuthMethod]
-      have hgne : (Const.GrantTypeRefreshToken == Const.GrantTypeClientCredentials) = false := by decide
+      unfold withClient parseCC
+      simp only [C07.legacyVerifyClient_eq]
+      unfold C07.legacyVerifySpec
+      simp only [formGet_grant]
+      have hgne : ¬ Const.GrantTypeRefreshToken = Const.GrantTypeClientCredentials := by decide
       have hgne' : (Const.GrantTypeRefreshToken != "") = true := by decide
       rcases cred_cases hm hcap hcaller with ⟨hty, hcl, hn⟩ | ⟨hty, hpk, h1, h2, hpr⟩ | ⟨hty, hcl, hsec, hk⟩
       · have hty' : (req.ClientAssertionType == Const.ClientAssertionTypeJWTAssertion) = false := by simpa using hty
         have hidb' : (c.id == "") = false := by simpa using hid
-        simp [hha, hty', hcl, hidb', hgne, hgne', getClient_of_find hfind, hgt, hn, Const.AuthMethodNone]
-      · have hty' : (req.ClientAssertionType == Const.ClientAssertionTypeJWTAssertion) = true := by simpa using hty
-        simp [hha, hty, hgne, hgne', h1, h2, privateKey_of_proves hfind hpk (hdec hty) hpr, hgt]
+        simp [hha, hty, hty', hcl, hidb', hgne, hgne', getClient_of_find hfind, hgt, hn, Const.AuthMethodNone]
+      · simp [hha, hty, hgne, hgne', h1, h2, privateKey_of_proves hfind hpk (hdec hty) hpr, hgt]
       · have hty' : (req.ClientAssertionType == Const.ClientAssertionTypeJWTAssertion) = false := by simpa using hty
         have hidb' : (c.id == "") = false := by simpa using hid
         have hsecret := secret_of_find hfind (by rcases hk with hb | ⟨hp, _⟩; exact Or.inl hb; exact Or.inr hp)
         rcases hk with hb | ⟨hp, hps⟩
-        · simp [hha, hty', hcl, hsec, hidb', hgne, hgne', getClient_of_find hfind, hgt, hb, hsecret, Go.ok, Const.AuthMethodNone,
+        · simp [hha, hty, hty', hcl, hsec, hidb', hgne, hgne', getClient_of_find hfind, hgt, hb, hsecret, Const.AuthMethodNone,
             Const.AuthMethodPrivateKeyJWT, Const.AuthMethodBasic, Const.AuthMethodPost]
-        · simp [hha, hty', hcl, hsec, hidb', hgne, hgne', getClient_of_find hfind, hgt, hp, hps, hsecret, Go.ok, Const.AuthMethodNone,
+        · simp [hha, hty, hty', hcl, hsec, hidb', hgne, hgne', getClient_of_find hfind, hgt, hp, hps, hsecret, Const.AuthMethodNone,
             Const.AuthMethodPrivateKeyJWT, Const.AuthMethodPost]
-    simp only [refreshExchange, hwc, htok', Bool.false_eq_true, if_false]
-    unfold LegacyRefreshToken
-    simp only [Provider.GrantTypeRefreshTokenSupported, hsup, Bool.not_true, Bool.false_eq_true, if_false, Provider.Storage, hbytok,
-      OPClient.GetID, RefreshReq.GetClientID, hidb, hscope]
+    simp only [refreshExchange, hwc, htok', Bool.false_eq_true, if_false, C07.legacyRefreshToken_eq]
+    unfold C07.legacyRefreshSpec
+    have hsupf : ¬ p.refreshSupported = false := by simp [hsup]
+    rw [if_neg hsupf]
+    simp only [hbytok, if_neg hidn, hscope]
 
 end FlowObs
 
